@@ -1,7 +1,7 @@
 """C04 rules: R-NAN (no NaN score reaches the skip list), R-SKIP-PAIR (index, nodes and length
 stay in step)."""
 import re
-from facts import callee, op_local, op_place, op_is_const
+from facts import callee, op_local, op_place, op_is_const, promoted_consts
 import cfg, shared, prov
 from shared import ENGINE
 
@@ -262,6 +262,86 @@ def cursor_local(b):
     return None
 
 
+ORD = {255: "Less", 0: "Equal", 1: "Greater", -1: "Less"}
+
+
+def ordering_edges(b, call_bb):
+    """how the Ordering returned by the call at call_bb is inspected: [(src_bb, target_bb,
+    {outcomes})] for `match` (discriminant switch) and for `== / != Ordering::X` (PartialEq call
+    with a promoted constant, then a bool switch)"""
+    t = b.term(call_bb)
+    res = t["d"]["l"]
+    out = []
+    alias = {res}; refs = set()
+    cur = t["t"]
+    for _ in range(8):
+        if cur is None or cur < 0:
+            break
+        bb = b.bbs[cur]
+        discr = set()
+        for st in bb["s"]:
+            if st["k"] != "=" or st["l"]["p"]:
+                continue
+            r = st["r"]
+            if r["k"] == "use" and op_local(r["o"]) in alias and not op_place(r["o"])["p"]:
+                alias.add(st["l"]["l"])
+            elif r["k"] == "ref" and r["p"]["l"] in alias and not r["p"]["p"]:
+                refs.add(st["l"]["l"])
+            elif r["k"] == "ref" and r["p"]["l"] in refs and r["p"]["p"] == ["*"]:
+                refs.add(st["l"]["l"])
+            elif r["k"] == "discr" and ((r["p"]["l"] in alias and not r["p"]["p"]) or (r["p"]["l"] in refs and r["p"]["p"] == ["*"])):
+                discr.add(st["l"]["l"])
+        tt = bb["t"]
+        if tt["k"] == "switch" and op_local(tt["d"]) in discr:
+            seen = set()
+            for v, tgt in tt["ts"]:
+                nm = ORD.get(v)
+                if nm:
+                    out.append((cur, tgt, {nm})); seen.add(nm)
+            rest = {"Less", "Equal", "Greater"} - seen
+            if rest and b.term(tt["o"])["k"] != "unreachable":
+                out.append((cur, tt["o"], rest))
+            return out
+        if tt["k"] == "call" and re.search(r"std::cmp::Ordering as std::cmp::PartialEq>::(eq|ne)$", tt["f"] or "") and len(tt["a"]) == 2:
+            which = None
+            for a in tt["a"]:
+                l = op_local(a)
+                if l in refs or l in alias:
+                    continue
+                # the other side: a reference to a promoted Ordering constant
+                for kind, db, d in prov.build_defs(b).get(l, ()):
+                    if kind == "stmt" and d["r"]["k"] == "ref":
+                        for k2, db2, d2 in prov.build_defs(b).get(d["r"]["p"]["l"], ()):
+                            if k2 == "stmt" and d2["r"]["k"] == "use":
+                                pc = promoted_consts(b, d2["r"]["o"])
+                                for c_ in pc or []:
+                                    if isinstance(c_, dict) and str(c_.get("agg", "")).startswith("std::cmp::Ordering::"):
+                                        which = c_["agg"].rsplit("::", 1)[-1]
+                    if kind == "stmt" and d["r"]["k"] == "use":
+                        pc = promoted_consts(b, d["r"]["o"])
+                        for c_ in pc or []:
+                            if isinstance(c_, dict) and str(c_.get("agg", "")).startswith("std::cmp::Ordering::"):
+                                which = c_["agg"].rsplit("::", 1)[-1]
+            if which is None:
+                return out
+            sw = shared._follow_to_switch(b, tt["t"], tt["d"]["l"])
+            if sw is None:
+                return out
+            ts = dict(sw[1]["ts"])
+            t_true, t_false = sw[1]["o"], ts.get(0)
+            others = {"Less", "Equal", "Greater"} - {which}
+            iseq = tt["f"].endswith("::eq")
+            if t_true is not None:
+                out.append((sw[0], t_true, {which} if iseq else others))
+            if t_false is not None:
+                out.append((sw[0], t_false, others if iseq else {which}))
+            return out
+        if tt["k"] == "goto":
+            cur = tt["t"]; continue
+        break
+    return out
+
+
 def arg_node_field(b, op, depth=4):
     """the node field an argument borrows: `&(*next).value` -> ['value']"""
     if op_is_const(op) or depth == 0:
@@ -305,45 +385,31 @@ def rule_skip_search(ctx, R):
             for a in t["a"][1:3]:
                 fld.append(arg_node_field(b, a))
             q = [sorted(param_roots(b, a)) for a in t["a"][3:5]]
-            sw = None
-            tgt = t["t"]
-            for _ in range(3):
-                tt = b.term(tgt)
-                if tt["k"] == "switch":
-                    dl = op_local(tt["d"])
-                    if any(st["k"] == "=" and st["l"]["l"] == dl and st["r"]["k"] == "discr" and st["r"]["p"]["l"] == t["d"]["l"] for st in b.stmts(tgt)):
-                        sw = (tgt, tt)
-                    break
-                if tt["k"] == "goto":
-                    tgt = tt["t"]
-                else:
-                    break
+            edges = ordering_edges(b, i)
             facts = {"function": fn, "at": b.loc(i), "node_fields": fld, "query_params": q}
             if fld != [["value"], ["key"]]:
                 R.finding(fn, key + ":node-args", "the search in %s hands the comparator node fields %s (must be value, key of the next node)" % (short, fld), b.loc(i))
             if not q[0] or not q[1] or q[0] == q[1]:
                 R.finding(fn, key + ":query-args", "the search in %s does not compare with the sought (score, member) parameters (%s)" % (short, q), b.loc(i))
-            if sw is None:
+            if not edges:
                 R.inst(fn, key, facts)
                 R.finding(fn, key + ":result-not-switched", "comparator result not inspected", b.loc(i)); continue
             cur = cursor_local(b)
-            adv = []
-            x, tt = sw
-            arms = [(v, tb) for v, tb in tt["ts"]] + [("otherwise", tt["o"])]
-            for v, tb in arms:
-                reg = cfg.edge_dom_set(b, x, tb)
-                # blocks of the arm before the loop is re-entered or left
+            adv = set()
+            for src, tgt, outs in edges:
+                reg = cfg.edge_dom_set(b, src, tgt)
                 wrote = False
                 for y in reg:
                     for st in b.stmts(y):
                         if st["k"] == "=" and st["l"]["l"] == cur and not st["l"]["p"]:
                             wrote = True
                 if wrote:
-                    adv.append(v)
-            facts["advance_arms"] = adv
+                    adv |= outs
+            adv = sorted(adv)
+            facts["advance_on"] = adv
             R.inst(fn, key, facts)
-            if adv != [255]:
-                R.finding(fn, key + ":advance-arms", "the search loop of %s moves the cursor on comparator outcome(s) %s; the sibling searches move on Less (255) only, so the three searches no longer stop at the same node" % (short, adv), b.loc(x))
+            if adv != ["Less"]:
+                R.finding(fn, key + ":advance-arms", "the search loop of %s moves the cursor on comparator outcome(s) %s; the sibling searches move on Less only, so the three searches no longer stop at the same node" % (short, adv), b.loc(i))
     R.floor("search_loops", n)
 
 
